@@ -441,7 +441,7 @@ func GetUnseenCountPerUser(db *sql.DB, mailboxID int64) (int, error) {
 	var count int
 	err := db.QueryRow(`
 		SELECT COUNT(*) FROM message_mailbox
-		WHERE mailbox_id = ? AND (flags IS NULL OR instr(' ' || flags || ' ', ' \Seen ') = 0)
+		WHERE mailbox_id = ? AND (flags IS NULL OR instr(' ' || lower(flags) || ' ', ' \seen ') = 0)
 	`, mailboxID).Scan(&count)
 	return count, err
 }
